@@ -4,19 +4,25 @@
 # (VERIF_REPO_SRC), record which checks report it in seeded/<id>/matrix.txt, remove the worktree.
 cd "$(dirname "$(realpath "$0")")/.." || exit 9
 V=$(pwd)
-checks=$(python3 -c "import json;print(' '.join(c['property_id'] for c in json.load(open('MANIFEST.json'))['checks']))")
+all=$(python3 -c "import json;print(' '.join(c['property_id'] for c in json.load(open('MANIFEST.json'))['checks']))")
+# MATRIX_CHECKS=all (default) | target (only the check of the property the seed was written against) | "C01 C02 ..."
 for id in "$@"; do
+  case "${MATRIX_CHECKS:-all}" in
+    all) checks=$all ;;
+    target) checks=${id%%-*} ;;
+    *) checks=$MATRIX_CHECKS ;;
+  esac
   wt=/tmp/mx-$id
   git -C /repo worktree add -q --detach $wt HEAD || continue
   ( cd $wt && { git apply $V/seeded/$id/patch.diff 2>/dev/null || git apply --3way $V/seeded/$id/patch.diff; } ) || { echo "$id: patch does not apply"; git -C /repo worktree remove --force $wt; continue; }
   mkdir -p $wt/out
-  : > seeded/$id/matrix.txt
+  mfile=seeded/$id/matrix.txt; [ "${MATRIX_CHECKS:-all}" = target ] && mfile=seeded/$id/target.txt; : > $mfile
   for p in $checks; do
     out=$(VERIF_REPO_SRC=$wt/src VERIF_OUT_DIR=$wt/out ./check $p --tier quick 2>&1); rc=$?
     nv=$(echo "$out" | grep -c '^VIOLATION')
     first=$(echo "$out" | grep '^  C' | head -1 | cut -c1-200)
-    echo "$p rc=$rc violations=$nv $first" >> seeded/$id/matrix.txt
+    echo "$p rc=$rc violations=$nv $first" >> $mfile
   done
   git -C /repo worktree remove --force $wt
-  echo "$id: caught by $(grep 'rc=1' seeded/$id/matrix.txt | cut -d' ' -f1 | tr '\n' ' ') $(grep -c 'rc=2' seeded/$id/matrix.txt) harness-errors"
+  echo "$id: caught by $(grep "rc=1" $mfile | cut -d' ' -f1 | tr '\n' ' ') $(grep -c "rc=2" $mfile) harness-errors"
 done
